@@ -35,7 +35,8 @@ constexpr bool laws_range(int from, int to) {
   return true;
 }
 
-constexpr int TOP = (1 << 30) / 2;  // largest full index whose half indices stay below 2^30
+constexpr int TOP = 1 << 30;  // one past the largest full index: 2 * (2^30 - 1) + 1 == INT_MAX is the largest half index
+constexpr int MID = 1 << 29;  // a guard written against the wrong power of two would cut the domain here
 
 static_assert(laws_at<EH, HEH>(0) && laws_at<EH, HEH>(1) && laws_at<EH, HEH>(TOP - 1), "C08: edge/halfedge handle laws fail at a boundary index");
 static_assert(laws_at<FH, HFH>(0) && laws_at<FH, HFH>(1) && laws_at<FH, HFH>(TOP - 1), "C08: face/halfface handle laws fail at a boundary index");
@@ -43,3 +44,5 @@ static_assert(laws_range<EH, HEH>(0, VERIF_RANGE), "C08: edge/halfedge handle la
 static_assert(laws_range<FH, HFH>(0, VERIF_RANGE), "C08: face/halfface handle laws fail in the low range");
 static_assert(laws_range<EH, HEH>(TOP - VERIF_RANGE, TOP), "C08: edge/halfedge handle laws fail in the high range");
 static_assert(laws_range<FH, HFH>(TOP - VERIF_RANGE, TOP), "C08: face/halfface handle laws fail in the high range");
+static_assert(laws_range<EH, HEH>(MID - VERIF_RANGE / 2, MID + VERIF_RANGE / 2), "C08: edge/halfedge handle laws fail around 2^29");
+static_assert(laws_range<FH, HFH>(MID - VERIF_RANGE / 2, MID + VERIF_RANGE / 2), "C08: face/halfface handle laws fail around 2^29");
